@@ -3,14 +3,21 @@ use serde::{Deserialize, Serialize};
 
 use super::{Estimate, Merge};
 
-/// Calculate the minimum of `a` and `b`.
+/// Calculate the minimum of `a` and `b`, ignoring NaN.
+///
+/// Unlike `f64::min`, the result is fully specified: on a tie (in particular
+/// between `0.0` and `-0.0`) `a` is returned, so that the same sequence gives
+/// bit-for-bit the same result however the calls are compiled.
 fn min(a: f64, b: f64) -> f64 {
-    a.min(b)
+    if b < a || a.is_nan() { b } else { a }
 }
 
-/// Calculate the maximum of `a` and `b`.
+/// Calculate the maximum of `a` and `b`, ignoring NaN.
+///
+/// Unlike `f64::max`, the result is fully specified: on a tie (in particular
+/// between `0.0` and `-0.0`) `a` is returned.
 fn max(a: f64, b: f64) -> f64 {
-    a.max(b)
+    if b > a || a.is_nan() { b } else { a }
 }
 
 /// Estimate the minimum of a sequence of numbers ("population").
